@@ -374,7 +374,8 @@ def _task_bodies(col: Collector, rule="C01.R5"):
         raise AnalysisError("ExprTask.run: no self.taskid._set_value(...) -- cannot decide")
     Wn = s.nids(W)
     col.add(rule, "ExprTask.run#writes-on-every-run", cfg.must_pass(cfg.ENTRY, cfg.EXIT, Wn), s.loc(Wn[0]),
-            "every run writes the target (no skipped write, no memo of the previous value)", f"write sites {[s.loc(w) for w in Wn]}")
+            "every run writes the target (no skipped write, no memo of the previous value)", f"write sites {[s.loc(w) for w in Wn]}",
+            discharged_by=("_set_value",))
     for ev, m in W:
         ok = m["v"] == S.mcall(S.sattr("expr"), "_get_value")
         col.add(rule, "ExprTask.run#evaluate-then-write", ok, s.loc(ev),
